@@ -117,6 +117,18 @@ def check_bytes_in_parser(data, ctxname, c2p, as_dict=False):
     r = parse_in_context(lit, ctxname, c2p)
     if r:
         return r
+    if as_dict and ctxname in ("option", "pair"):
+        d = c2p.C2Profile.from_text(CONTEXTS[ctxname][0].replace("%s", lit)).as_dict()
+        try:
+            text = data.decode("latin-1")
+        except Exception:  # noqa: BLE001
+            text = None
+        hdr = d.get("http-get.client.header")
+        if ctxname == "pair" and not (isinstance(hdr, list) and len(hdr) == 2 and all(isinstance(t, tuple) and len(t) == 2 for t in hdr)
+                                      and hdr[0][1] in ("v1", b"v1") and hdr[1][0] in ("k2", b"k2") and hdr[0][0] == hdr[1][1]):
+            return "parser.as_dict", f"as_dict() reports {d.get('http-get.client.header')!r} for the header pairs with literal {lit!r} of {data!r}"
+        if ctxname == "option" and (list(d) != ["sample_name", "jitter"] or len(d["sample_name"]) != 1):
+            return "parser.as_dict", f"as_dict() reports {d!r} for 'set sample_name {lit};'"
     if as_dict and ctxname == "transform":
         prof = c2p.C2Profile.from_text(CONTEXTS[ctxname][0].replace("%s", lit))
         d = prof.as_dict()
@@ -266,6 +278,15 @@ def run_shard(shard, ctx):
         for first in range(shard["part"] * 32, shard["part"] * 32 + 32):
             check_case({"op": "direct_block", "first": first}, ctx)
         ctx.exhaustive["bytes_len<=2_direct"] = True
+        if shard["part"] == 0:
+            # blobs (shellcode, images): literal texts far beyond 64 K characters, escapes at every alignment
+            for data in (b"A" + b"\x90" * 17000, b"\x90" * 20000, bytes(range(256)) * 100, b"ab" + b"\xff\x00" * 9000, b"x" * 70000 + b"\x01\x02"):
+                check_case({"op": "direct", "data": data}, ctx)
+            check_case({"op": "parser", "data": b"MZ" + b"\x90" * 17000, "context": "transform", "as_dict": True}, ctx)
+            # values that coincide with words of the language
+            for word in (b"default", b"Default", b"true", b"print", b"set", b"{", b"base64"):
+                for cx in CONTEXTS:
+                    check_case({"op": "parser", "data": word, "context": cx, "as_dict": True}, ctx)
         for _ in range(shard["n"]):
             if ctx.out_of_time():
                 break
